@@ -99,6 +99,7 @@ def metrics_batch(item):
     s.exchange.assets[s.exchange.settlement_currency] = 1234.0      # the current balance differs from the starting balance
     out = []
     for sp in item["specs"]:
+        store.app.starting_time = sp.get("start_ts", T0)           # the date index of the daily returns starts here
         ts = [_mk_trade(m, ty, q, 60 + 60 * (i % 3), s.ex) for i, (m, ty, q) in enumerate(sp["trades"])]
         ev = []
         for t in ts:
@@ -139,6 +140,8 @@ def metrics_batch(item):
 
 # starting balances that are not multiples of 0.01 (3-7 decimals, a tiny coin-quoted one); all exact in binary and with
 # small denominators so that net profit / starting balance stays inside the rational lattice
+# session start dates (UTC ms): 2021-01-01, and leap years: 2020-01-01, 2020-03-01, 2024-01-01, 2024-12-30 (crossing into 2025)
+STARTS = [1609459200000, 1577836800000, 1583020800000, 1704067200000, 1735516800000]
 BALANCES = ["1000", "1000.125", "0.1234375", "2345.625", "7.03125", "0.375"]
 
 
@@ -195,7 +198,7 @@ def equity_run(item):
     bal = Fraction(item.get("bal", "10000"))
     cfg = S.spot_config(fee=fee, balance=float(bal)) if typ == 'spot' else S.futures_config(fee=fee, lev=item.get("lev", 2), balance=float(bal))
     candles = {s: S.lattice_walk(n, seed * 7 + (13 if s.startswith('ETH') else 0), start=100 + (20 if s.startswith('ETH') else 0),
-                                 floor=40) for s in syms}
+                                 floor=40, ts0=item.get("ts0", S.T0)) for s in syms}
     pol = dict(item["policy"], spot=(typ == 'spot'), seed=seed)
     if typ == 'spot':
         # one entry fill per position and no exit edits: exits are declared once (re-declaring them while the old sell
@@ -237,7 +240,7 @@ def equity_run(item):
                    "t": int(e['t']), "len": int(e['n']), "series": []})
         ev[-1]["exact"] = flags[0]
     res = {"hdr": {"type": typ, "start": int(bal * 1024), "n": n, "syms": list(syms), "seed": seed, "tf": item.get("tf", "1m"),
-                   "fast": bool(item.get("fast"))}, "ev": ev, "exc": out["exc"],
+                   "fast": bool(item.get("fast")), "ts0": int(item.get("ts0", S.T0) // 1000)}, "ev": ev, "exc": out["exc"],
            "ntrades": 0, "reads": reads}
     fin = out.get("final") or {}
     if out["exc"] is None and "accts" in fin:
@@ -315,7 +318,7 @@ def equity_items(ctx, rng):
             n = max(5, n - n % 5)
         items.append({"typ": typ, "syms": list(routes), "n": n, "seed": ctx.seed * 1000 + k, "fee_den": rng.choice([0, 64, 1024]),
                       "policy": POLICIES[k % len(POLICIES)], "lev": rng.choice([1, 2, 4]), "tf": tf, "fast": (k // 3) % 3 == 2,
-                      "bal": ["10000", "1250.125", "2345.625", "5000.0625"][(k // 2) % 4],
+                      "bal": ["10000", "1250.125", "2345.625", "5000.0625"][(k // 2) % 4], "ts0": STARTS[k % len(STARTS)],
                       "reads": k % 4 != 0})
         k += 1
     return items
@@ -415,6 +418,8 @@ def run(ctx):
     # ---------------- R: real metrics.trades in forked children
     for j, sp in enumerate(specs0 + specs_fee + specs_long + specs_bal):
         sp["final"] = (j % 3 != 1)
+    for j, sp in enumerate(specs_long + specs_bal + specs0):
+        sp["start_ts"] = STARTS[j % len(STARTS)]
     jobs = chunked(specs0, 0, 1, 200, BALANCES) + chunked(specs_fee, 1024, 1024, 400) + chunked(specs_long, 0, 1, 6) \
         + chunked(specs_bal, 0, 1, 100, BALANCES)
     res = run_isolated(metrics_batch, jobs, procs=16)
@@ -504,6 +509,7 @@ def run(ctx):
         "traces_validated_against_impl": len(traces) + len(etraces),
         "metrics_calls": len(traces), "reports_of_real_backtests_judged": n_report, "metrics_rejected": bad, "expected_values_outside_lattice": skipped,
         "equity_runs": len(etraces), "equity_runs_fast_mode": sum(1 for t in etraces if t["hdr"]["fast"]),
+        "session_start_dates_utc_ms": STARTS,
         "equity_runs_5m": sum(1 for t in etraces if t["hdr"]["tf"] == "5m"), "equity_runs_ending_in_exception": excs, "equity_samples": sum(len(t["ev"]) for t in etraces),
         "equity_samples_with_open_position": open_samples, "equity_samples_with_resting_buys_on_two_symbols": resting_two,
         "equity_rejected": ebad, "strategy_reads_during_runs": nreads, "equity_exception_kinds": exc_kinds, "model_counterexample_max_drawdown": model_cex,
